@@ -93,6 +93,13 @@ def apply(op, m):
                                "scale": 4 if m.cell_type == "tetra" else 1}, [m], m.add_midpoints_volumes())]
     if k[0] == "centroids":
         return [("centroids", {"as_type": m.cell_type, "scale": 3 if m.cell_type == "triangle" else 1}, [m], m.convert(order=0, calc_points=True))]
+    if k[0] == "fillbetween":
+        a2 = fem.Mesh(np.pad(m.points, ((0, 0), (0, 1))), m.cells, m.cell_type)
+        b2 = fem.Mesh(a2.points + [2.0, 2.0], m.cells, m.cell_type)            # sheared copy two units above (integer layers)
+        return [("fillbetween", {"n": int(k[1])}, [a2, b2], a2.fill_between(b2, n=int(k[1])))]
+    if k[0] == "dupcells":
+        cat = fem.mesh.concatenate([m, m]).merge_duplicate_points(decimals=6)
+        return [("dupcells", {}, [m], cat.merge_duplicate_cells())]
     if k[0] == "concatmerge":
         shift = float(m.points[:, 0].max() - m.points[:, 0].min())
         m2 = m.translate(shift, axis=0)
